@@ -119,7 +119,10 @@ fn drop_oracle(sink: &Sink<'_>, si: usize, rt: &Runtime, brs: &mut [BrRt]) {
                     continue;
                 }
                 for _ in 0..3 {
-                    drive_once(rt);
+                    if let Err(msg) = guard(|| drive_once(rt)) {
+                        sink.problem("panic", json!({"kind": "panic_in_driver_poll", "after": "drop"}), format!("Runtime::poll_with panicked after the root was dropped: {msg}"), si);
+                        return;
+                    }
                     std::thread::sleep(Duration::from_micros(300));
                 }
                 let x1 = unread(dup);
@@ -140,7 +143,10 @@ fn drop_oracle(sink: &Sink<'_>, si: usize, rt: &Runtime, brs: &mut [BrRt]) {
                 }
                 let Ok(c) = UnixStream::connect_addr(addr) else { continue };
                 for _ in 0..3 {
-                    drive_once(rt);
+                    if let Err(msg) = guard(|| drive_once(rt)) {
+                        sink.problem("panic", json!({"kind": "panic_in_driver_poll", "after": "drop"}), format!("Runtime::poll_with panicked after the root was dropped: {msg}"), si);
+                        return;
+                    }
                     std::thread::sleep(Duration::from_micros(300));
                 }
                 let fd = unsafe { libc::accept4(dup.as_raw_fd(), std::ptr::null_mut(), std::ptr::null_mut(), libc::SOCK_CLOEXEC | libc::SOCK_NONBLOCK) };
